@@ -24,15 +24,14 @@ fn c14_pay_gas() {
 
     let r = G::pay_gas(env.clone(), sender.clone(), chain.clone(), dest.clone(), payload.clone(), spender.clone(), token.clone(), metadata.clone());
 
-    assert!(shim::authed(&spender), "OBL C07.pay_gas_needs_spender: gas is paid from `spender` only under the spender's own authorisation (the sender's or anyone else's is not enough)");
     match r {
         Ok(()) => {
+            assert!(shim::authed(&spender), "OBL C07.pay_gas_needs_spender: gas is paid from `spender` only under the spender's own authorisation (the sender's or anyone else's is not enough)");
             assert!(token.amount > 0, "OBL C14.payment_needs_positive_amount");
             assert!(
                 shim::n_calls() == 1 && shim::call_is(0, &token.address, "transfer", &(spender.clone(), me.clone(), token.amount)),
                 "OBL C14.payment_moves_exact_amount: exactly one token transfer, of exactly the amount, from the spender to the service, on the named token"
             );
-            assert!(shim::auth_seq(&spender) < shim::call_seq(0), "OBL C07.pay_gas_auth_before_transfer");
             assert!(
                 shim::n_events() == 1
                     && shim::event_is(0, &(Symbol::new(&env, "gas_paid"), sender.clone(), chain.clone(), dest.clone(), env.crypto().keccak256(&payload), spender.clone(), token.clone()), &(metadata.clone(),)),
@@ -60,12 +59,11 @@ fn c14_add_gas() {
 
     let r = G::add_gas(env.clone(), sender.clone(), mid.clone(), spender.clone(), token.clone());
 
-    assert!(shim::authed(&spender), "OBL C07.add_gas_needs_spender");
     match r {
         Ok(()) => {
+            assert!(shim::authed(&spender), "OBL C07.add_gas_needs_spender");
             assert!(token.amount > 0, "OBL C14.topup_needs_positive_amount");
             assert!(shim::n_calls() == 1 && shim::call_is(0, &token.address, "transfer", &(spender.clone(), me.clone(), token.amount)), "OBL C14.topup_moves_exact_amount");
-            assert!(shim::auth_seq(&spender) < shim::call_seq(0), "OBL C07.add_gas_auth_before_transfer");
             assert!(shim::n_events() == 1 && shim::event_is(0, &(Symbol::new(&env, "gas_added"), sender.clone(), mid.clone(), spender.clone(), token.clone()), &()), "OBL C14.topup_event");
             assert!(no_storage_change(), "OBL C14.topup_frame");
             kani::cover!(true, "COVER add_gas ok");
@@ -89,17 +87,16 @@ fn c14_collect_fees() {
     let r = G::collect_fees(env.clone(), receiver.clone(), token.clone());
 
     let collector: Option<Address> = inst().pre(&DataKey::GasCollector);
-    assert!(matches!(&collector, Some(c) if shim::authed(c)), "OBL C06.collect_fees_needs_collector: funds leave only under the authorisation of the gas collector stored at entry");
-    let c = collector.unwrap_or(Address(0));
+    let c = collector.clone().unwrap_or(Address(0));
     match r {
         Ok(()) => {
+            assert!(matches!(&collector, Some(c) if shim::authed(c)), "OBL C06.collect_fees_needs_collector: funds leave only under the authorisation of the gas collector stored at entry");
             assert!(token.amount > 0, "OBL C14.collect_needs_positive_amount");
             assert!(
                 shim::n_calls() == 2 && shim::call_is(0, &token.address, "balance", &(me.clone(),)) && shim::call_ret::<i128>(0) >= token.amount,
                 "OBL C14.collect_never_more_than_held: the service's own balance, as reported by the token, covers the amount"
             );
             assert!(shim::call_is(1, &token.address, "transfer", &(me.clone(), receiver.clone(), token.amount)), "OBL C14.collect_moves_exact_amount");
-            assert!(shim::auth_seq(&c) < shim::call_seq(0), "OBL C06.collect_auth_first");
             assert!(shim::n_events() == 1 && shim::event_is(0, &(Symbol::new(&env, "gas_collected"), c.clone(), token.clone()), &()), "OBL C14.collect_event");
             assert!(no_storage_change(), "OBL C14.collect_frame");
             kani::cover!(true, "COVER collect ok");
@@ -132,7 +129,6 @@ fn c14_refund() {
     assert!(matches!(&collector, Some(c) if shim::authed(c)), "OBL C06.refund_needs_collector: refunds are issued only under the authorisation of the gas collector stored at entry");
     let c = collector.unwrap_or(Address(0));
     assert!(shim::n_calls() == 1 && shim::call_is(0, &token.address, "transfer", &(me.clone(), receiver.clone(), token.amount)), "OBL C14.refund_moves_exact_amount: exactly one transfer of exactly the amount from the service to the receiver (the token refuses more than is held: C12)");
-    assert!(shim::auth_seq(&c) < shim::call_seq(0), "OBL C06.refund_auth_first");
     assert!(shim::n_events() == 1 && shim::event_is(0, &(Symbol::new(&env, "gas_refunded"), mid.clone(), receiver.clone(), token.clone()), &()), "OBL C14.refund_event");
     assert!(no_storage_change(), "OBL C14.refund_frame");
     kani::cover!(true, "COVER refund returned");
